@@ -832,7 +832,7 @@ class StoryMove(MosFile):
         story is to be moved
         """
         stories = self.base_tag.findall('storyID')
-        if len(stories) < 2:
+        if len(stories) < 2 or stories[1].text is None:
             return
         return Story(self.base_tag, id=stories[1].text, unknown_items=True)
 
